@@ -1,3 +1,12 @@
+// Differential + oracle harness for C37 (ast/fromgo followed by ast/togo).
+//
+// Every case is a Go *ast.File (one declaration of a corpus file, or a small generated file):
+//   case line : conv <TAB> <s-expression of the Go file tree>
+//   impl line : <S1|S0> <TAB> <XGo tree from the real fromgo.ASTFile | PANIC class>
+//               <TAB> <Go tree from the real togo.ASTFile | PANIC class | -> <TAB> <HEQ|HNE|H->
+// S1 = the tree is a well-formed parser-style tree (independent restatement in wellFormed);
+// HEQ = go/printer prints the same header for the original and the round-tripped declaration
+// (after the header normalisation of ser.go).  The property oracle: S1 ⇒ no panic ∧ HEQ.
 package main
 
 import (
@@ -7,43 +16,687 @@ import (
 	"go/parser"
 	"go/printer"
 	"go/token"
+	"io"
+	"log"
+	"os"
+	"path/filepath"
+	"reflect"
+	"runtime"
+	"sort"
+	"strings"
 
+	gopast "github.com/goplus/xgo/ast"
 	"github.com/goplus/xgo/ast/fromgo"
 	"github.com/goplus/xgo/ast/togo"
-	goptoken "github.com/goplus/xgo/token"
+	xgoparser "github.com/goplus/xgo/parser"
+	"verifharness/vh"
 )
 
-func main() {
-	src := `package p
-func F[T any](x T) T { return x }
-type L[T any] struct { next *L[T]; v T }
-type P[K comparable, V any] struct{ k K; v V }
-var x P[int, string]
-type N interface { ~int | string; M() }
-func g() int { return 0}
-func (p *P[K, V]) Get() (K, V) { return p.k, p.v }
-type A = int
-var _ = f(xs...)
-const ( a = iota; b; c )
-`
-	fset := token.NewFileSet()
-	f, err := parser.ParseFile(fset, "a.go", src, 0)
-	if err != nil {
-		panic(err)
+const maxLine = 48 << 10 // larger trees are checked by the oracle only
+
+var out *vh.Out
+
+// ---------------------------------------------------------------------------------------------
+
+func panicClass(e interface{}) string {
+	var s string
+	switch v := e.(type) {
+	case string:
+		s = v
+	case error:
+		s = v.Error()
+	default:
+		s = fmt.Sprint(v)
 	}
-	for _, d := range f.Decls {
+	s = strings.TrimRight(s, "\n")
+	if _, ok := e.(runtime.Error); ok {
+		switch {
+		case strings.Contains(s, "nil pointer dereference"):
+			return "nil-deref"
+		case strings.Contains(s, "interface conversion"):
+			return "type-assertion"
+		}
+		return "runtime: " + s
+	}
+	if i := strings.Index(s, "unknown spec -"); i >= 0 {
+		return s[:i+len("unknown spec -")]
+	}
+	s = strings.ReplaceAll(s, "*ast.", "")
+	s = strings.ReplaceAll(s, "*typeparams.", "")
+	return s
+}
+
+type result struct {
+	xgo, back string // serialised trees or "PANIC …"
+	backFile  *ast.File
+	panicked  string
+}
+
+func convert(f *ast.File) (r result) {
+	r.xgo, r.back = "-", "-"
+	func() {
+		defer func() {
+			if e := recover(); e != nil {
+				r.panicked = "fromgo:" + panicClass(e)
+				r.xgo = "PANIC " + panicClass(e)
+			}
+		}()
+		g := fromgo.ASTFile(f, 0)
+		r.xgo = sexpr(g)
 		func() {
 			defer func() {
 				if e := recover(); e != nil {
-					fmt.Printf("PANIC %v\n", e)
+					r.panicked = "togo:" + panicClass(e)
+					r.back = "PANIC " + panicClass(e)
 				}
 			}()
-			g := fromgo.ASTFile(&ast.File{Name: f.Name, Decls: []ast.Decl{d}}, 0)
-			back := togo.ASTFile(g, 0)
-			var b bytes.Buffer
-			printer.Fprint(&b, token.NewFileSet(), back.Decls[0])
-			fmt.Println(b.String())
+			b := togo.ASTFile(g, 0)
+			r.back = sexpr(b)
+			r.backFile = b
 		}()
+	}()
+	return
+}
+
+func printDecl(d ast.Decl) (s string) {
+	defer func() {
+		if e := recover(); e != nil {
+			s = fmt.Sprint("PRINTER-PANIC ", e)
+		}
+	}()
+	var b bytes.Buffer
+	if err := printer.Fprint(&b, token.NewFileSet(), d); err != nil {
+		return "PRINTER-ERROR " + err.Error()
 	}
-	fmt.Println(int(token.TILDE), int(goptoken.TILDE), int(token.IMPORT), int(goptoken.IMPORT), int(token.OR), int(goptoken.OR), int(token.VAR), int(goptoken.VAR))
+	return b.String()
+}
+
+// wellFormed: independent restatement of "tree as go/parser builds it for an error-free file"
+// (what the model calls Supported): no Bad nodes outside bodies, no nil declaration / spec /
+// field / function type, GenDecl keyword matches the kind of its specs.
+func wellFormed(v reflect.Value) bool {
+	t := v.Type()
+	if t == tGoCG || t == tGoObj || t == tGoScope || t == tGoBlock {
+		return true
+	}
+	switch v.Kind() {
+	case reflect.Interface:
+		if v.IsNil() {
+			return true
+		}
+		return wellFormed(v.Elem())
+	case reflect.Ptr:
+		if v.IsNil() {
+			return true
+		}
+		switch n := v.Interface().(type) {
+		case *ast.BadExpr, *ast.BadDecl:
+			return false
+		case *ast.FuncLit:
+			if n.Type == nil {
+				return false
+			}
+		case *ast.FuncDecl:
+			if n.Type == nil {
+				return false
+			}
+		case *ast.GenDecl:
+			for _, s := range n.Specs {
+				ok := false
+				switch s.(type) {
+				case *ast.ImportSpec:
+					ok = n.Tok == token.IMPORT
+				case *ast.TypeSpec:
+					ok = n.Tok == token.TYPE
+				case *ast.ValueSpec:
+					ok = n.Tok == token.VAR || n.Tok == token.CONST
+				}
+				if !ok {
+					return false
+				}
+			}
+			if n.Tok != token.IMPORT && n.Tok != token.TYPE && n.Tok != token.VAR && n.Tok != token.CONST {
+				return false
+			}
+		}
+		e := v.Elem()
+		if e.Kind() != reflect.Struct {
+			return true
+		}
+		for i := 0; i < e.NumField(); i++ {
+			if e.Type().Field(i).IsExported() && !wellFormed(e.Field(i)) {
+				return false
+			}
+		}
+		return true
+	case reflect.Slice:
+		et := t.Elem()
+		mustNonNil := et == reflect.TypeOf((*ast.Field)(nil)) || et == reflect.TypeOf((*ast.Spec)(nil)).Elem() || et == reflect.TypeOf((*ast.Decl)(nil)).Elem()
+		for i := 0; i < v.Len(); i++ {
+			x := v.Index(i)
+			if mustNonNil && x.IsNil() {
+				return false
+			}
+			if !wellFormed(x) {
+				return false
+			}
+		}
+	}
+	return true
+}
+
+func features(f *ast.File) {
+	var walk func(v reflect.Value)
+	seen := map[string]bool{}
+	walk = func(v reflect.Value) {
+		t := v.Type()
+		if t == tGoCG || t == tGoObj || t == tGoScope || t == tGoBlock {
+			return
+		}
+		switch v.Kind() {
+		case reflect.Interface:
+			if !v.IsNil() {
+				walk(v.Elem())
+			}
+		case reflect.Ptr:
+			if v.IsNil() {
+				return
+			}
+			switch n := v.Interface().(type) {
+			case *ast.FuncType:
+				if n.TypeParams != nil {
+					seen["typeparams_func"] = true
+				}
+			case *ast.TypeSpec:
+				if n.TypeParams != nil {
+					seen["typeparams_type"] = true
+				}
+				if n.Assign.IsValid() {
+					seen["alias"] = true
+				}
+			case *ast.IndexListExpr:
+				seen["index_list"] = true
+			case *ast.IndexExpr:
+				seen["index"] = true
+			case *ast.UnaryExpr:
+				if n.Op == token.TILDE {
+					seen["tilde"] = true
+				}
+			case *ast.BinaryExpr:
+				if n.Op == token.OR {
+					seen["or"] = true
+				}
+			case *ast.Ellipsis:
+				seen["ellipsis"] = true
+			case *ast.ChanType:
+				if n.Dir != ast.SEND|ast.RECV {
+					seen["chan_dir"] = true
+				}
+			case *ast.Field:
+				if n.Tag != nil {
+					seen["tag"] = true
+				}
+				if len(n.Names) == 0 {
+					seen["anon_field"] = true
+				}
+				if len(n.Names) > 1 {
+					seen["multi_name_field"] = true
+				}
+			case *ast.ValueSpec:
+				if len(n.Names) > 1 {
+					seen["multi_name_spec"] = true
+				}
+				if len(n.Values) == 0 && n.Type == nil {
+					seen["implicit_const"] = true
+				}
+			case *ast.Ident:
+				if n.Name == "iota" {
+					seen["iota"] = true
+				}
+			case *ast.FuncLit:
+				seen["funclit"] = true
+			case *ast.FuncDecl:
+				if n.Recv != nil {
+					seen["method"] = true
+				}
+			case *ast.GenDecl:
+				if n.Lparen.IsValid() {
+					seen["grouped"] = true
+				}
+			case *ast.CallExpr:
+				if n.Ellipsis.IsValid() {
+					seen["call_ellipsis"] = true
+				}
+			case *ast.SliceExpr:
+				if n.Slice3 {
+					seen["slice3"] = true
+				}
+			case *ast.InterfaceType, *ast.StructType, *ast.MapType, *ast.CompositeLit, *ast.TypeAssertExpr, *ast.KeyValueExpr:
+				seen[strings.ToLower(reflect.TypeOf(n).Elem().Name())] = true
+			}
+			e := v.Elem()
+			if e.Kind() == reflect.Struct {
+				for i := 0; i < e.NumField(); i++ {
+					if e.Type().Field(i).IsExported() {
+						walk(e.Field(i))
+					}
+				}
+			}
+		case reflect.Slice:
+			for i := 0; i < v.Len(); i++ {
+				walk(v.Index(i))
+			}
+		}
+	}
+	walk(reflect.ValueOf(f))
+	for k := range seen {
+		out.Count("feat_" + k)
+	}
+}
+
+// runCase runs one Go file tree through the real converters, the oracle and emits the case.
+func runCase(src string, f *ast.File) {
+	wf := wellFormed(reflect.ValueOf(f))
+	line := "conv\t" + sexpr(f)
+	r := convert(f)
+	s := "S0"
+	h := "H-"
+	if wf {
+		s = "S1"
+		features(f)
+		if r.panicked != "" {
+			out.Oracle("panic:"+strings.ReplaceAll(r.panicked, " ", "_"), oracleCase(line, src), "well-formed declaration makes the converters panic: "+r.panicked)
+		} else {
+			h = "HEQ"
+			if len(r.backFile.Decls) != len(f.Decls) {
+				h = "HNE"
+				out.Oracle("lost:File.Decls", oracleCase(line, src), "number of declarations differs")
+			} else if (f.Name == nil) != (r.backFile.Name == nil) || (f.Name != nil && f.Name.Name != r.backFile.Name.Name) {
+				h = "HNE"
+				out.Oracle("lost:File.Name", oracleCase(line, src), "package name differs")
+			} else {
+				for i, d := range f.Decls {
+					a, b := normDecl(d), normDecl(r.backFile.Decls[i])
+					pa, pb := printDecl(a), printDecl(b)
+					if pa != pb {
+						h = "HNE"
+						where := firstDiff(reflect.ValueOf(a), reflect.ValueOf(b), "Decl")
+						if where == "" {
+							where = "printed-text"
+						}
+						out.Oracle("lost:"+where, oracleCase(line, src), fmt.Sprintf("printed header differs: original %q round trip %q", clip(pa), clip(pb)))
+						break
+					}
+				}
+			}
+		}
+		out.Count("wellformed")
+	} else {
+		out.Count("malformed")
+		if r.panicked != "" {
+			out.Count("malformed_panic_" + strings.SplitN(r.panicked, ":", 2)[0])
+		} else {
+			out.Count("malformed_no_panic")
+		}
+	}
+	if len(line) > maxLine {
+		out.Count("too_big_for_model(oracle_only)")
+		return
+	}
+	n := strings.Count(line, "(")
+	switch {
+	case n < 10:
+		out.Count("nodes_lt10")
+	case n < 50:
+		out.Count("nodes_10_49")
+	case n < 250:
+		out.Count("nodes_50_249")
+	default:
+		out.Count("nodes_ge250")
+	}
+	out.Case(line, s+"\t"+r.xgo+"\t"+r.back+"\t"+h, wf && n >= 6)
+}
+
+func clip(s string) string {
+	if len(s) > 300 {
+		return s[:300] + "…"
+	}
+	return s
+}
+
+// the oracle file is tab-separated: keep the case replayable (the check restores the tab).
+func oracleCase(line, src string) string {
+	if len(line) > 6000 {
+		return "conv-src " + src
+	}
+	return line
+}
+
+// ---------------------------------------------------------------------------------------------
+// togo alone, on trees of the XGo parser (any XGo node kind; validates the togo table, its
+// "unknown expr/decl" panics included).  No property oracle here: correspondence only.
+
+func runTogoCase(gf *gopast.File) {
+	line := "togo\t" + sexpr(gf)
+	if len(line) > maxLine {
+		out.Count("togo_too_big")
+		return
+	}
+	var impl string
+	func() {
+		defer func() {
+			if e := recover(); e != nil {
+				impl = "PANIC " + panicClass(e)
+				out.Count("togo_panic")
+			}
+		}()
+		impl = sexpr(togo.ASTFile(gf, 0))
+		out.Count("togo_ok")
+	}()
+	out.Case(line, impl, strings.Count(line, "(") >= 6)
+}
+
+func runTogoSource(name string, src interface{}) {
+	var f *gopast.File
+	func() {
+		defer func() {
+			if e := recover(); e != nil {
+				out.Count("xgo_parser_panic")
+			}
+		}()
+		f, _ = xgoparser.ParseFile(token.NewFileSet(), name, src, 0)
+	}()
+	if f == nil {
+		out.Count("xgo_parse_failed")
+		return
+	}
+	out.Count("xgo_files")
+	for _, d := range f.Decls {
+		runTogoCase(&gopast.File{Package: f.Package, Name: f.Name, Decls: []gopast.Decl{d}})
+	}
+}
+
+var xgoSeeds = []string{
+	"var a = [1, 2, 3]",
+	"var m = {\"a\": 1, \"b\": 2}",
+	"var f = x => x * 2",
+	"var g = (x, y) => { return x + y }",
+	"var r = [x*2 for x in [1, 2, 3] if x > 1]",
+	"var s = \"${a} and $b\"",
+	"var n = 1r + 3.5r",
+	"var c = 10:20:2",
+	"var e = foo()!",
+	"var o = foo()?:0",
+	"func add(a, b int) int { return a + b }",
+	"func (p *T) M(x ...int) {}",
+	"type T[K comparable, V any] struct { m map[K]V }",
+	"var t T[int, string]",
+	"const ( A = iota; B; C )",
+	"func mul = (mulInt; mulFloat)",
+	"var d = 1m + 2s",
+	"import \"fmt\"",
+	"var p = &T{a: 1}",
+	"var q = <-ch",
+	"echo \"hi\"",
+}
+
+func runParsed(src string, f *ast.File, perDecl bool) {
+	if f == nil {
+		return
+	}
+	name := f.Name
+	if perDecl {
+		for _, d := range f.Decls {
+			runCase(src, &ast.File{Package: f.Package, Name: name, Decls: []ast.Decl{d}})
+		}
+		return
+	}
+	runCase(src, &ast.File{Package: f.Package, Name: name, Decls: f.Decls})
+}
+
+func runPath(path string, budget *int) {
+	if *budget <= 0 {
+		return
+	}
+	fset := token.NewFileSet()
+	f, err := parser.ParseFile(fset, path, nil, parser.SkipObjectResolution)
+	if err != nil {
+		out.Count("corpus_files_with_parse_errors")
+	}
+	if f == nil {
+		return
+	}
+	out.Count("corpus_files")
+	*budget -= len(f.Decls)
+	runParsed(path, f, true)
+}
+
+func walkGo(root string, budget *int, skipDirs map[string]bool) {
+	var files []string
+	filepath.Walk(root, func(p string, info os.FileInfo, err error) error {
+		if err != nil {
+			return nil
+		}
+		if info.IsDir() {
+			if info.Name() == ".git" || skipDirs[info.Name()] {
+				return filepath.SkipDir
+			}
+			return nil
+		}
+		if strings.HasSuffix(p, ".go") {
+			files = append(files, p)
+		}
+		return nil
+	})
+	sort.Strings(files)
+	for _, p := range files {
+		runPath(p, budget)
+	}
+}
+
+// declarations that exercise every construct named in the property (and the defects found)
+var seeds = []string{
+	"func F[T any](x T) T { return x }",
+	"func g() int { return 0 }",
+	"func h() (int) { return 0 }",
+	"func k() (n int, err error) { return }",
+	"type L[T any] struct { next *L[T]; v T }",
+	"type P[K comparable, V any] struct { k K; v V }",
+	"var x P[int, string]",
+	"var y = Map[int, string](nil)",
+	"type N interface { ~int | string; M() }",
+	"type C[S ~[]E, E any] interface { ~int | ~string; comparable; Len() int }",
+	"func (p *P[K, V]) Get() (K, V) { return p.k, p.v }",
+	"func (l L[T]) Each(f func(T) bool) {}",
+	"type A = int",
+	"type B = P[int, string]",
+	"var _ = f(xs...)",
+	"func v(a int, bs ...string) {}",
+	"const ( a = iota; b; c )",
+	"const ( d, e = iota, 1 << iota; f, g; _, _ )",
+	"const k1 Foo = 1",
+	"var m, n int = 1, 2",
+	"var ( p1 int; q1, r1 = 1, \"s\" )",
+	"type S struct { io.Reader; *Foo; a, b int `json:\"a\"`; c string \"t\"; List[int] }",
+	"type I interface { io.Reader; M(x int, y ...string) (int, error); comparable }",
+	"var ch1 chan int; var ch2 <-chan int; var ch3 chan<- int; var ch4 chan (<-chan int)",
+	"var fn = func(a int) (r int) { return a }",
+	"var cl = []P[int, string]{{1, \"a\"}, {k: 2, v: \"b\"}}",
+	"var ar = [...]int{1, 2, 3}",
+	"var mp = map[string][]int{\"a\": {1}}",
+	"var sl = x[1:2:3]",
+	"var ta = y.(interface{ M() })",
+	"var fp func(int, ...string) (a, b int)",
+	"import ( \"fmt\"; . \"io\"; _ \"embed\"; x \"a/b\" )",
+	"import \"C\"",
+	"func ext(x int) int",
+	"var u = -x + ^y*(<-c) - *p&^q",
+	"type G[T interface{ ~int }] []T",
+	"type H[T any, PT interface{ *T; M() }] struct{}",
+	"func Ap[A, B any, F ~func(A) B](f F, a A) B { return f(a) }",
+	"var _ = Ap[int, string, func(int) string]",
+	"var _ = atomic.Pointer[T]{}",
+	"type Arr[T any] [8]T",
+	"type ( X1 int; X2[T any] = []T; X3 struct{} )",
+}
+
+func runSource(tag, src string, perDecl bool) bool {
+	fset := token.NewFileSet()
+	f, err := parser.ParseFile(fset, tag+".go", "package p\n"+src+"\n", parser.SkipObjectResolution)
+	if err != nil {
+		out.Count("generated_source_rejected_by_parser")
+		if os.Getenv("C37_DEBUG") != "" {
+			fmt.Fprintln(os.Stderr, "rejected:", src, err)
+		}
+		return false
+	}
+	runParsed(tag, f, perDecl)
+	return true
+}
+
+func goroot() string {
+	if r := os.Getenv("GOROOT"); r != "" {
+		return r
+	}
+	return runtime.GOROOT()
+}
+
+func main() {
+	log.SetOutput(io.Discard) // the converters panic through log.Panicln
+	fl := vh.ParseFlags()
+	out = vh.NewOut(fl.Out)
+	defer out.Close()
+	if fl.Replay != "" {
+		fs := strings.SplitN(fl.Replay, "\t", 2)
+		if len(fs) != 2 {
+			fmt.Fprintln(os.Stderr, "replay: bad case line")
+			os.Exit(2)
+		}
+		if fs[0] == "conv-src" {
+			if strings.HasSuffix(fs[1], ".go") && strings.HasPrefix(fs[1], "/") {
+				b := 1 << 30
+				runPath(fs[1], &b)
+			} else {
+				fmt.Fprintln(os.Stderr, "replay: generated case too large to embed; rerun with the same seed")
+			}
+			return
+		}
+		f, err := parseGoFile(fs[1])
+		if err != nil {
+			fmt.Fprintln(os.Stderr, "replay:", err)
+			os.Exit(2)
+		}
+		runCase("replay", f)
+		return
+	}
+	thorough := fl.Tier == "thorough"
+
+	// 0. minimised past disagreements
+	if ms, _ := filepath.Glob("/verif/corpus/C37/*.txt"); ms != nil {
+		for _, m := range ms {
+			b, _ := os.ReadFile(m)
+			for _, l := range strings.Split(string(b), "\n") {
+				fs := strings.SplitN(l, "\t", 2)
+				if len(fs) == 2 && fs[0] == "conv" {
+					if f, err := parseGoFile(fs[1]); err == nil {
+						runCase(m, f)
+						out.Count("corpus_lines")
+					}
+				}
+			}
+		}
+	}
+	// 1. seeds
+	for i, s := range seeds {
+		runSource(fmt.Sprintf("seed%d", i), s, true)
+	}
+	runSource("seedfile", strings.Join(seeds[:12], "\n"), false)
+
+	// 2. every Go file of the tree under test
+	repo := os.Getenv("VERIF_REPO")
+	if repo == "" {
+		repo = "/repo"
+	}
+	budget := 1 << 30
+	if !thorough {
+		budget = 4000
+	}
+	walkGo(filepath.Join(repo, "ast"), &budget, nil)
+	walkGo(filepath.Join(repo, "token"), &budget, nil)
+	walkGo(filepath.Join(repo, "x"), &budget, nil)
+	walkGo(filepath.Join(repo, "tpl"), &budget, nil)
+	walkGo(repo, &budget, map[string]bool{"ast": true, "token": true, "x": true, "tpl": true})
+
+	// 3. GOROOT sample (generics-heavy packages first)
+	gr := filepath.Join(goroot(), "src")
+	pk := []string{"slices", "maps", "sync/atomic", "cmp", "iter", "sort", "container/list", "container/heap", "sync", "go/token", "errors", "unique"}
+	if thorough {
+		pk = append(pk, "go/ast", "go/types", "go/parser", "reflect", "strings", "bytes", "encoding/json", "net/http", "internal/types/testdata", "math/rand/v2", "runtime", "fmt", "os", "testing", "context", "time")
+	}
+	gb := 2000
+	if thorough {
+		gb = 1 << 30
+	}
+	for _, p := range pk {
+		walkGo(filepath.Join(gr, p), &gb, map[string]bool{"vendor": true})
+	}
+
+	// 3b. togo alone on XGo parser output
+	for i, s := range seeds {
+		runTogoSource(fmt.Sprintf("seed%d.xgo", i), "package p\n"+s+"\n")
+	}
+	for i, s := range xgoSeeds {
+		runTogoSource(fmt.Sprintf("xseed%d.xgo", i), s+"\n")
+	}
+	{
+		var xs []string
+		filepath.Walk(repo, func(p string, info os.FileInfo, err error) error {
+			if err == nil && !info.IsDir() && (strings.HasSuffix(p, ".xgo") || strings.HasSuffix(p, ".gop") || strings.HasSuffix(p, ".gox")) {
+				xs = append(xs, p)
+			}
+			return nil
+		})
+		sort.Strings(xs)
+		if !thorough && len(xs) > 120 {
+			xs = xs[:120]
+		}
+		for _, p := range xs {
+			runTogoSource(p, nil)
+		}
+	}
+
+	// 4. generated files and fault injection
+	r := vh.NewRand(fl.Seed)
+	for i := 0; i < fl.N; i++ {
+		g := &gen{r: r.Fork(i)}
+		nd := 1 + g.r.Intn(3)
+		var ds []string
+		for j := 0; j < nd; j++ {
+			ds = append(ds, g.decl())
+		}
+		src := strings.Join(ds, "\n")
+		tag := fmt.Sprintf("gen-seed%d-%d", fl.Seed, i)
+		if g.r.Chance(80) {
+			runSource(tag, src, g.r.Chance(50))
+			if g.r.Chance(25) {
+				runTogoSource(tag+".xgo", "package p\n"+src+"\n")
+			}
+			continue
+		}
+		// fault injection into one declaration
+		fset := token.NewFileSet()
+		f, err := parser.ParseFile(fset, tag+".go", "package p\n"+src+"\n", parser.SkipObjectResolution)
+		if err != nil || len(f.Decls) == 0 {
+			out.Count("generated_source_rejected_by_parser")
+			continue
+		}
+		k := g.r.Intn(len(f.Decls))
+		what := inject(g.r, &f.Decls[k])
+		if what == "" {
+			out.Count("inject_not_applicable")
+		} else {
+			out.Count("inject_" + what)
+		}
+		runCase(tag, &ast.File{Package: f.Package, Name: f.Name, Decls: f.Decls})
+	}
 }
